@@ -40,6 +40,16 @@
 (*                     CloseConnection -> UnregisterConnection, so the store effect is one.    *)
 (*   LateCleanup(n,c)  the same code path, taken for a connection whose client has meanwhile  *)
 (*                     completed a newer handshake (old node notices late)                    *)
+(*   AuthOK with w = "new" is the FIRST-CONNECTION handshake: the request carries no client id,   *)
+(*                     ServerAuthHandler.handleFirstConnection allocates the identity and      *)
+(*                     binds it to the connection; the location record is filled from the      *)
+(*                     connection's identity.  UseRequestId = TRUE models filling it from the  *)
+(*                     request: client id 0, no index - deviation "unindexed".                 *)
+(*                     A re-handshake on a connection whose record is still there re-writes    *)
+(*                     the record with a full lifetime counted from NOW.  KeepCreatedAt = TRUE *)
+(*                     models deriving the expiry from the connection's first registration     *)
+(*                     (age[c]): a connection older than one lifetime gets a record that is    *)
+(*                     expired on arrival - deviation "bornExpired".                           *)
 (*   LkBegin(m,x) / LkEnd(m)   FindClientNode on node m as the two storage reads it is: read   *)
 (*                     the client index (LkBegin), later read the record of the connection it  *)
 (*                     named (LkEnd); handshakes elsewhere and cleanups may fall in between.   *)
@@ -77,6 +87,7 @@ CONSTANTS Nodes, NConns, Clients,  \* connections c1..cN are used in this order 
           Shapes,                  \* backend shapes explored: subset of {"ptr", "str", "map"}
           FixSets,                 \* sets of repairs explored: subsets of AllFixes
           Causes,                  \* close causes explored: subset of {"peer", "cmd", "sweep", "kick"} (one store effect)
+          KeepCreatedAt, UseRequestId,   \* two more alternative designs (see above)
           Lookups, WritingLookup,  \* two-step lookups explored? / the writing-lookup design
           Emit, Only               \* Only = "dev": print a behaviour only when its last event records a deviation
 
@@ -92,15 +103,18 @@ VARIABLES shape,    \* what the configured backend hands back for connRec (fixed
           alive,    \* ghost: connection -> heart-beaten in every tick since its handshake
           dev,      \* ghost: client -> set of deviation names since its latest handshake
           lost,     \* ghost: client -> an undeliverable handshake of it happened since its latest successful one
+          age,      \* ghost: connection -> ticks since its FIRST successful handshake (capped at TTL)
           lk,       \* the lookup in flight (at most one): [p, m, x, conn] - index read, record not yet
           lkDone,   \* ghost: client -> since its latest handshake a lookup completed whose index read was overtaken
           lkWrote,  \* ghost: some lookup modified the store
           hist
-vars == <<shape, fixes, connRec, clientIdx, clock, cst, reg, last, hb, alive, dev, lost, lk, lkDone, lkWrote, hist>>
+vars == <<shape, fixes, connRec, clientIdx, clock, cst, reg, last, hb, alive, dev, lost, age, lk, lkDone, lkWrote, hist>>
 \* lifetimes are kept as REMAINING ticks, so the state graph without the clock is finite and the
 \* exhaustive check covers sessions of any length; the generator keeps the clock to bound sleeps
-view    == <<shape, fixes, connRec, clientIdx, cst, reg, last, hb, alive, dev, lost, lk, lkDone, lkWrote>>
-genview == <<shape, fixes, connRec, clientIdx, clock, cst, reg, last, hb, alive, dev, lost, lk, lkDone, lkWrote>>
+\* age influences nothing unless KeepCreatedAt (or the "long" generation filter) looks at it
+ageV    == IF KeepCreatedAt \/ Only = "long" THEN age ELSE 0
+view    == <<shape, fixes, connRec, clientIdx, cst, reg, last, hb, alive, dev, lost, ageV, lk, lkDone, lkWrote>>
+genview == <<shape, fixes, connRec, clientIdx, clock, cst, reg, last, hb, alive, dev, lost, ageV, lk, lkDone, lkWrote>>
 
 AllConns == <<"c1", "c2", "c3", "c4">>
 ConnName(i) == AllConns[i]
@@ -122,6 +136,7 @@ Init == /\ shape \in Shapes /\ fixes \in FixSets
         /\ alive = [c \in ConnSet |-> FALSE]
         /\ dev = [x \in Clients |-> {}]
         /\ lost = [x \in Clients |-> FALSE]
+        /\ age = [c \in ConnSet |-> 0]
         /\ lk = NoLk /\ lkDone = [x \in Clients |-> FALSE] /\ lkWrote = FALSE
         /\ hist = <<>>
 
@@ -133,6 +148,10 @@ Init == /\ shape \in Shapes /\ fixes \in FixSets
 \*           lookup still found the client
 \*   "lookup" a heartbeat of the client's current connection after a two-step lookup of the client
 \*           completed whose index read had been overtaken (handshake elsewhere / cleanup in between)
+\*   "long"   a heartbeat or tick at which a client is connected on a connection at least one
+\*           registration lifetime old (session outlives the lifetime), and a successful
+\*           re-handshake on such a connection
+\*   "first"  a first-connection handshake (server-assigned identity)
 \*   "reauth" a successful re-handshake on an already authenticated connection that is not (any
 \*           more) where the store locates the client
 ConnectedP(x) == last'[x] # "-" /\ cst'[last'[x]].st = "open" /\ alive'[last'[x]]
@@ -143,6 +162,9 @@ Wanted(e, foundBefore) ==
                          \/ e.a \in {"HB", "Close", "Late"} /\ \E x \in Clients : lost'[x] /\ ConnectedP(x)
     [] Only = "close" -> e.a \in {"Close", "Late"} /\ e.w # "peer" /\ e.x # "-" /\ foundBefore /\ AllClosedP(e.x)
     [] Only = "lookup" -> e.a = "HB" /\ e.x # "-" /\ lkDone'[e.x] /\ ConnectedP(e.x) /\ last'[e.x] = e.c
+    [] Only = "long"  -> \/ e.a \in {"Tick", "HB"} /\ \E x \in Clients : ConnectedP(x) /\ age'[last'[x]] >= TTL
+                         \/ e.a = "Auth" /\ cst[e.c].auth = e.x /\ age[e.c] >= TTL /\ alive[e.c]
+    [] Only = "first" -> e.a = "Auth" /\ e.w = "new"
     [] Only = "reauth" -> e.a = "Auth" /\ cst[e.c].auth = e.x
                           /\ (last[e.x] # e.c \/ ~(clientIdx[e.x].ttl > 0 /\ clientIdx[e.x].conn = e.c))
     [] OTHER -> TRUE
@@ -190,31 +212,38 @@ NextConn == LET used == {i \in 1..NConns : cst[ConnName(i)].st # "new"}
 Connect(n, c) ==
   /\ c = NextConn
   /\ cst' = [cst EXCEPT ![c] = [st |-> "open", node |-> n, auth |-> "-"]]
-  /\ UNCHANGED <<connRec, clientIdx, clock, reg, last, hb, alive, dev, lost>>
+  /\ UNCHANGED <<connRec, clientIdx, clock, reg, last, hb, alive, dev, lost, age>>
   /\ Log("Connect", n, c, "-")
 
-AuthOK(n, c, x) ==
+NeverSeen(x) == last[x] = "-" /\ ~lost[x]
+AuthOK(n, c, x, w) ==
   /\ cst[c].st = "open" /\ cst[c].node = n /\ cst[c].auth \in {"-", x}
+  /\ w \in {"-", "new"} /\ (w = "new" => cst[c].auth = "-" /\ NeverSeen(x))    \* an identity is issued once
   /\ LET old == reg[n][x]
          evict == old # "-" /\ old # c
          u == IF evict THEN Unreg(connRec, clientIdx, old)
               ELSE [cr |-> connRec, ix |-> clientIdx, x |-> "-", late |-> FALSE]
-     IN /\ connRec' = [u.cr EXCEPT ![c] = [node |-> n, client |-> x, ttl |-> TTL]]
-        /\ clientIdx' = [u.ix EXCEPT ![x] = [conn |-> c, ttl |-> TTL]]
+         byReq == UseRequestId /\ w = "new"                      \* record filled from the request: client id 0
+         left == IF KeepCreatedAt /\ GetState(connRec, c, clock) = "ok" THEN TTL - age[c] ELSE TTL
+     IN /\ connRec' = [u.cr EXCEPT ![c] = IF left > 0 THEN [node |-> n, client |-> (IF byReq THEN "-" ELSE x), ttl |-> left] ELSE NoRec]
+        /\ clientIdx' = IF byReq THEN u.ix ELSE [u.ix EXCEPT ![x] = [conn |-> c, ttl |-> TTL]]
         /\ cst' = [k \in ConnSet |-> IF k = c THEN [cst[c] EXCEPT !.auth = x]
                                       ELSE IF evict /\ k = old THEN [cst[k] EXCEPT !.st = "evicted"]
                                       ELSE cst[k]]
         /\ reg' = [reg EXCEPT ![n][x] = c]
         /\ dev' = [y \in Clients |->
                      IF y = x THEN (IF shape \in Accepted THEN {} ELSE {"shape"})
+                                    \cup (IF UseRequestId /\ w = "new" THEN {"unindexed"} ELSE {})
+                                    \cup (IF KeepCreatedAt /\ GetState(connRec, c, clock) = "ok" /\ age[c] >= TTL THEN {"bornExpired"} ELSE {})
                      ELSE IF u.late /\ y = u.x THEN dev[y] \cup {"lateCleanup"} ELSE dev[y]]
   /\ last' = [last EXCEPT ![x] = c]
   /\ hb' = [hb EXCEPT ![c] = TRUE]
   /\ alive' = [alive EXCEPT ![c] = TRUE]
   /\ lost' = [lost EXCEPT ![x] = FALSE]
   /\ lkDone' = [lkDone EXCEPT ![x] = FALSE]
+  /\ age' = IF cst[c].auth = x THEN age ELSE [age EXCEPT ![c] = 0]
   /\ UNCHANGED <<clock, lk, lkWrote>>
-  /\ LogK("Auth", n, c, x, "-", FALSE, FALSE)
+  /\ LogK("Auth", n, c, x, w, FALSE, FALSE)
 
 \* credential check passed, response undeliverable: handleHandshake returns before its registry
 \* section, so the failing phase-2 round has no store effect.  Phase 1 of that round (challenge
@@ -230,7 +259,7 @@ AuthLost(n, c, x) ==
           /\ clientIdx' = [clientIdx EXCEPT ![x] = [conn |-> c, ttl |-> TTL]]
           /\ dev' = IF last[x] # c THEN [dev EXCEPT ![x] = @ \cup {"phase1Moves"}] ELSE dev
      ELSE UNCHANGED <<connRec, clientIdx, dev>>
-  /\ UNCHANGED <<clock, reg, last, hb, alive>>
+  /\ UNCHANGED <<clock, reg, last, hb, alive, age>>
   /\ Log("AuthLost", n, c, x)
 
 Heartbeat(n, c) ==
@@ -242,7 +271,7 @@ Heartbeat(n, c) ==
           /\ clientIdx' = IF KeyLive(clientIdx[x], clock) /\ clientIdx[x].conn = c
                           THEN [clientIdx EXCEPT ![x].ttl = TTL] ELSE clientIdx
      ELSE UNCHANGED <<connRec, clientIdx>>
-  /\ UNCHANGED <<clock, cst, reg, last, alive, dev, lost>>
+  /\ UNCHANGED <<clock, cst, reg, last, alive, dev, lost, age>>
   /\ Log("HB", n, c, cst[c].auth)
 
 \* CloseConnection(c), by cause w
@@ -258,7 +287,7 @@ CloseEffect(n, c, w) ==
      /\ dev' = IF u.late THEN [dev EXCEPT ![u.x] = @ \cup {"lateCleanup"}] ELSE dev
      /\ reg' = IF x # "-" /\ reg[n][x] = c THEN [reg EXCEPT ![n][x] = "-"] ELSE reg
   /\ cst' = [cst EXCEPT ![c].st = "closed"]
-  /\ UNCHANGED <<clock, last, hb, alive, lost>>
+  /\ UNCHANGED <<clock, last, hb, alive, lost, age>>
 
 Superseded(c) == cst[c].auth # "-" /\ last[cst[c].auth] # c
 FoundNow(c) == cst[c].auth # "-" /\ Find(cst[c].auth).r = "found"
@@ -269,7 +298,7 @@ LateCleanup(n, c, w) == Superseded(c)  /\ CloseEffect(n, c, w) /\ LogW("Late", n
 LkBegin(m, x) ==
   /\ Lookups /\ ~lk.p /\ KeyLive(clientIdx[x], clock)            \* an absent index ends the lookup at once
   /\ lk' = [p |-> TRUE, m |-> m, x |-> x, conn |-> clientIdx[x].conn]
-  /\ UNCHANGED <<connRec, clientIdx, clock, cst, reg, last, hb, alive, dev, lost, lkDone, lkWrote>>
+  /\ UNCHANGED <<connRec, clientIdx, clock, cst, reg, last, hb, alive, dev, lost, age, lkDone, lkWrote>>
   /\ LogK("LkBegin", m, "-", x, "-", FALSE, FALSE)
 
 LkEnd(m) ==
@@ -285,7 +314,7 @@ LkEnd(m) ==
         /\ lkDone' = [lkDone EXCEPT ![x] = @ \/ overtaken]
         /\ LogK("LkEnd", m, "-", x, "-", FALSE, FALSE)
   /\ lk' = NoLk
-  /\ UNCHANGED <<connRec, clock, cst, reg, last, hb, alive, lost>>
+  /\ UNCHANGED <<connRec, clock, cst, reg, last, hb, alive, lost, age>>
 
 Tick ==
   /\ clock < MaxClock
@@ -299,6 +328,7 @@ Tick ==
                THEN dev[x] \cup {"ttlLapse"} ELSE dev[x]]
   /\ connRec' = [c \in ConnSet |-> IF connRec[c].ttl <= 1 THEN NoRec ELSE [connRec[c] EXCEPT !.ttl = @ - 1]]
   /\ clientIdx' = [x \in Clients |-> IF clientIdx[x].ttl <= 1 THEN NoIdx ELSE [clientIdx[x] EXCEPT !.ttl = @ - 1]]
+  /\ age' = [c \in ConnSet |-> IF cst[c].auth # "-" /\ cst[c].st = "open" /\ age[c] < TTL THEN age[c] + 1 ELSE age[c]]
   /\ UNCHANGED <<cst, reg, last, lost>>
   /\ Log("Tick", "-", "-", "-")
 
@@ -307,7 +337,7 @@ Next == \/ Tick
         \/ \E n \in Nodes, c \in ConnSet :
              \/ Connect(n, c) \/ Heartbeat(n, c)
              \/ \E w \in Causes : Close(n, c, w) \/ LateCleanup(n, c, w)
-             \/ \E x \in Clients : AuthOK(n, c, x) \/ AuthLost(n, c, x)
+             \/ \E x \in Clients : AuthOK(n, c, x, "-") \/ AuthOK(n, c, x, "new") \/ AuthLost(n, c, x)
 Spec == Init /\ [][Next]_vars
 
 Bounded == Len(hist) <= MaxHist
@@ -330,5 +360,5 @@ IndexSound == \A x \in Clients : KeyLive(clientIdx[x], clock) => cst[clientIdx[x
 
 TypeOK == /\ clock \in 0..MaxClock
           /\ \A c \in ConnSet : cst[c].st \in {"new", "open", "evicted", "dead", "closed"}
-          /\ \A x \in Clients : last[x] \in ConnSet \cup {"-"} /\ dev[x] \subseteq {"shape", "lateCleanup", "ttlLapse", "phase1Moves", "lookupErased"}
+          /\ \A x \in Clients : last[x] \in ConnSet \cup {"-"} /\ dev[x] \subseteq {"shape", "lateCleanup", "ttlLapse", "phase1Moves", "lookupErased", "unindexed", "bornExpired"}
 =============================================================================
